@@ -1,6 +1,10 @@
 """Per-property configuration of the /verif checks (read by ./check)."""
 
 COMPONENTS = {
+    "symbols": {
+        "real": ["linker.Symbols (Import, Lookup, LookupExtension, AddExtension, AddExtensionDeclaration)", "reporter.Handler", "protodesc / linker results as imported descriptors", "sync.RWMutex, Go runtime"],
+        "stub": ["callers (workload goroutines / operation histories)", "goroutine scheduler (seeded, serialising; invisible to the race detector in engine R)", "flat-map reference model"],
+    },
     "experimental": {
         "real": ["experimental/incremental Executor/Task/Resolve/Run/Evict", "experimental/incremental/queries (File, AST, IR, Link, FDP, FDS)",
                  "experimental parser, ir lowering (ir.Session), fdp, report (Report, Canonicalize, Renderer)", "source.Openers and source.WKTs",
@@ -120,6 +124,17 @@ PROPS = {
              "distinct (workspace, runs, synthetic list, trace hash); non-trivial = the reference report has at least 2 diagnostics",
         assumptions=_ASSUME_B + ["the synthetic-list part of the Canonicalize oracle is plain seeded input generation (no schedule in it); it is included because the property states it, not as simulation"],
     ),
+    "C17": dict(
+        test="TestC17", engine="B", level="exploration", components="symbols",
+        quick_checks=4000, thorough_checks=150000, thorough_timeout=7200,
+        rule="a case = history of 2-12 operations from {Import(file), Lookup(name), LookupExtension(message, number)} over a fixed pool of 15 "
+             "small files x 2 representations (linker result with source, plain protodesc descriptor) that overlap in names, package-vs-"
+             "symbol names and extension numbers on a shared extendee; after every Import the answers of Lookup/LookupExtension over the "
+             "whole name universe and the success/failure of the import are compared with a flat-map model of the successfully imported "
+             "files; distinct = distinct history; non-trivial = at least one import in the history failed",
+        assumptions=["single goroutine: the quantifier is over histories, no schedule is involved (the concurrent side of the symbol table is C16)",
+                     "the model enumerates a file's symbols with protocompile's own walk.Descriptors", "seeded sampling of histories, not exhaustive"],
+    ),
 }
 
 _PURE = "pure function of its input (no schedule, clock, fault or interleaving can change the answer): not a deterministic-simulation target; see DESIGN.md section 4"
@@ -131,9 +146,17 @@ NOT_APPLICABLE = {
     "C39": _PURE, "C40": _PURE + " (histories over a single-threaded structure are just inputs; nothing to inject)", "C41": _PURE,
 }
 _P = "simulation applies (DESIGN.md section 3) but the check is still under construction in this round; not claimed until it runs"
-PENDING = {k: _P for k in ["C16", "C17", "C38"]}
+PENDING = {k: _P for k in ["C16", "C38"]}
 
 MANIFEST_TEXT = {
+    "C17": dict(
+        technique="seeded operation histories checked step by step against an executable reference model (flat map of committed files)",
+        design_ref="DESIGN.md 3.7",
+        level_text="Seeded histories of imports (some colliding on names, package names or extension numbers) and lookups on one "
+                   "symbol table; after every step the table's observable answers over the whole name universe, and whether the import "
+                   "succeeded, must equal a flat-map model in which a failed import changes nothing.",
+        level_note="Trusted: the reference model and walk.Descriptors as the enumeration of a file's symbols. No concurrency in this check.",
+    ),
     "C35": dict(
         technique="deterministic simulation: seeded edit histories over a simulated Opener (incl. transient open errors) x seeded schedules (engine B), brand-new executor as reference model",
         design_ref="DESIGN.md 3.10",
